@@ -118,17 +118,33 @@ def InnerOk (cfg : Cfg) (e : Bool × InEv × Out) : Prop :=
 
 /-! ### close() once the task set is cached -/
 
-theorem closeF_cached (cfg : Cfg) (f : Nat) (s : St) (x : Nat) (h : s.pending = some x) :
-    closeF cfg (f + 1) s = s := by
-  simp [closeF, h]
+/-- every protocol `connect()` has registered so far has been handed to a `close()` -/
+def NoLate (cfg : Cfg) (s : St) : Prop := (cfg.protos.take s.handlers).length ≤ s.closedUpTo
+
+theorem lateLoop_skip (cfg : Cfg) (k : St → St) (ps : List Proto) :
+    ∀ i s, i + ps.length ≤ s.closedUpTo → lateLoop cfg k i ps s = s := by
+  induction ps with
+  | nil => intro i s _; rfl
+  | cons p ps ih =>
+    intro i s h
+    have hlt : i < s.closedUpTo := by simp at h; omega
+    rw [lateLoop, if_pos hlt]
+    exact ih (i + 1) s (by simp at h; omega)
+
+theorem closeF_cached (cfg : Cfg) (f : Nat) (s : St) (x : Nat) (h : s.pending = some x)
+    (hnl : NoLate cfg s) : closeF cfg (f + 1) s = s := by
+  rw [closeF]
+  simp only [h]
+  exact lateLoop_skip cfg _ _ 0 s (by simpa [NoLate] using hnl)
 
 /-- a continuation that behaves like a `close()` that hits the cache -/
-def Cached (k : St → St) : Prop := ∀ s x, s.pending = some x → k s = s
+def Cached (cfg : Cfg) (k : St → St) : Prop := ∀ s x, s.pending = some x → NoLate cfg s → k s = s
 
-theorem cached_closeF (cfg : Cfg) (f : Nat) : Cached (closeF cfg (f + 1)) :=
-  fun s x h => closeF_cached cfg f s x h
+theorem cached_closeF (cfg : Cfg) (f : Nat) : Cached cfg (closeF cfg (f + 1)) :=
+  fun s x h hnl => closeF_cached cfg f s x h hnl
 
 structure Mid (cfg : Cfg) (x : Nat) (q : Bool) (d : List Report) (s : St) : Prop where
+  nolate : NoLate cfg s
   pending : s.pending = some x
   raised : s.raised = false
   calls : s.callsMade = s.reports.length
@@ -139,7 +155,7 @@ structure Mid (cfg : Cfg) (x : Nat) (q : Bool) (d : List Report) (s : St) : Prop
   quiet : q = true → 1 ≤ s.callsMade ∧ s.flying = false
 
 theorem Mid.weaken {cfg : Cfg} {x q d s} (h : Mid cfg x q d s) : Mid cfg x false d s :=
-  ⟨h.pending, h.raised, h.calls, h.notif, h.shield, h.pushOn, h.inner, by simp⟩
+  ⟨h.nolate, h.pending, h.raised, h.calls, h.notif, h.shield, h.pushOn, h.inner, by simp⟩
 
 /-- the cached task set and the close log stay what they are -/
 def Frame (s s' : St) : Prop :=
@@ -151,16 +167,17 @@ theorem Frame.trans {a b c : St} (h1 : Frame a b) (h2 : Frame b c) : Frame a c :
   ⟨h2.1.trans h1.1, h2.2.1.trans h1.2.1, h2.2.2.trans h1.2.2⟩
 
 /-- what the cached regime leaves alone: the above and the registered listener -/
-def Same (s s' : St) : Prop := Frame s s' ∧ s'.listener = s.listener
+def Same (s s' : St) : Prop :=
+  Frame s s' ∧ s'.listener = s.listener ∧ s'.handlers = s.handlers ∧ s'.closedUpTo = s.closedUpTo
 
-theorem Same.refl (s : St) : Same s s := ⟨Frame.refl s, rfl⟩
+theorem Same.refl (s : St) : Same s s := ⟨Frame.refl s, rfl, rfl, rfl⟩
 
 theorem Same.trans {a b c : St} (h1 : Same a b) (h2 : Same b c) : Same a c :=
-  ⟨Frame.trans h1.1 h2.1, h2.2.trans h1.2⟩
+  ⟨Frame.trans h1.1 h2.1, h2.2.1.trans h1.2.1, h2.2.2.1.trans h1.2.2.1, h2.2.2.2.trans h1.2.2.2⟩
 
 /-- user code inside the DeviceListener callback, after the device has been blocked: every
     protected member answers `blocked`, `close()` answers the cached set -/
-theorem runInner_cached {cfg : Cfg} {k : St → St} {x q d} (hk : Cached k) (dl : Bool)
+theorem runInner_cached {cfg : Cfg} {k : St → St} {x q d} (hk : Cached cfg k) (dl : Bool)
     (es : List InEv) :
     ∀ s, Mid cfg x q d s → s.flying = false →
       Mid cfg x q d (runInner cfg k dl s es) ∧ (runInner cfg k dl s es).flying = false ∧
@@ -173,7 +190,7 @@ theorem runInner_cached {cfg : Cfg} {k : St → St} {x q d} (hk : Cached k) (dl 
     | api m =>
       simp only [runInner]
       have h1 : Mid cfg x q d { s with inner := s.inner ++ [(dl, InEv.api m, apiOut cfg s m)] } := by
-        refine ⟨h.pending, h.raised, h.calls, h.notif, h.shield, h.pushOn, ?_, h.quiet⟩
+        refine ⟨h.nolate, h.pending, h.raised, h.calls, h.notif, h.shield, h.pushOn, ?_, h.quiet⟩
         intro e he
         rcases List.mem_append.mp he with he | he
         · exact h.inner e he
@@ -183,16 +200,16 @@ theorem runInner_cached {cfg : Cfg} {k : St → St} {x q d} (hk : Cached k) (dl 
           intro row hrow hprot hx
           simp only [apiOut, hrow, apiBlocked_of_closed cfg s row h.shield hprot hx, if_true]
       obtain ⟨a, b, c⟩ := ih _ h1 hf
-      exact ⟨a, b, Same.trans ⟨⟨rfl, rfl, rfl⟩, rfl⟩ c⟩
+      exact ⟨a, b, Same.trans ⟨⟨rfl, rfl, rfl⟩, rfl, rfl, rfl⟩ c⟩
     | close =>
-      have hk' := hk s x h.pending
+      have hk' := hk s x h.pending h.nolate
       have hstep : runInner cfg k dl s (InEv.close :: es)
           = runInner cfg k dl { s with inner := s.inner ++ [(dl, InEv.close, closeOut s)] } es := by
         simp only [runInner, hk']
         rw [if_neg (by simp [hf])]
       rw [hstep]
       have h1 : Mid cfg x q d { s with inner := s.inner ++ [(dl, InEv.close, closeOut s)] } := by
-        refine ⟨h.pending, h.raised, h.calls, h.notif, h.shield, h.pushOn, ?_, h.quiet⟩
+        refine ⟨h.nolate, h.pending, h.raised, h.calls, h.notif, h.shield, h.pushOn, ?_, h.quiet⟩
         intro e he
         rcases List.mem_append.mp he with he | he
         · exact h.inner e he
@@ -201,24 +218,24 @@ theorem runInner_cached {cfg : Cfg} {k : St → St} {x q d} (hk : Cached k) (dl 
           intro _
           exact ⟨x, s.tasks, by simp [closeOut, h.pending, h.raised]⟩
       obtain ⟨a, b, c⟩ := ih _ h1 hf
-      exact ⟨a, b, Same.trans ⟨⟨rfl, rfl, rfl⟩, rfl⟩ c⟩
+      exact ⟨a, b, Same.trans ⟨⟨rfl, rfl, rfl⟩, rfl, rfl, rfl⟩ c⟩
 
-theorem handler_cached {cfg : Cfg} {k : St → St} {x d s} (hk : Cached k) (r : Report) (b : Beh)
+theorem handler_cached {cfg : Cfg} {k : St → St} {x d s} (hk : Cached cfg k) (r : Report) (b : Beh)
     (h : Mid cfg x false (r :: d) s) (hf : s.flying = false) :
     Mid cfg x false d (handler cfg k s r b) ∧ Same s (handler cfg k s r b) ∧
       (b.raises = false → (handler cfg k s r b).flying = false) := by
   have h0 : Mid cfg x false d { s with notified := s.notified ++ [r] } :=
-    ⟨h.pending, h.raised, h.calls, by obtain ⟨l, hl⟩ := h.notif; exact ⟨l, by simpa using hl⟩,
+    ⟨h.nolate, h.pending, h.raised, h.calls, by obtain ⟨l, hl⟩ := h.notif; exact ⟨l, by simpa using hl⟩,
       h.shield, h.pushOn, h.inner, by simp⟩
   obtain ⟨a, bb, c⟩ := runInner_cached (cfg := cfg) hk true b.inner _ h0 hf
   unfold handler
   simp only []
   split
   · rename_i hr
-    refine ⟨⟨a.pending, a.raised, a.calls, a.notif, a.shield, a.pushOn, a.inner, by simp⟩,
-      Same.trans ⟨⟨rfl, rfl, rfl⟩, rfl⟩ c, ?_⟩
+    refine ⟨⟨a.nolate, a.pending, a.raised, a.calls, a.notif, a.shield, a.pushOn, a.inner, by simp⟩,
+      Same.trans ⟨⟨rfl, rfl, rfl⟩, rfl, rfl, rfl⟩ c, ?_⟩
     intro hb; rw [hb] at hr; exact absurd hr (by simp)
-  · exact ⟨a, Same.trans ⟨⟨rfl, rfl, rfl⟩, rfl⟩ c, fun _ => bb⟩
+  · exact ⟨a, Same.trans ⟨⟨rfl, rfl, rfl⟩, rfl, rfl, rfl⟩ c, fun _ => bb⟩
 
 /-! `reportWith` by cases, as equations (so that proofs never have to rewrite inside a state) -/
 
@@ -261,10 +278,10 @@ theorem listener_cases (s : St) :
   cases s.listener <;> simp
 
 theorem reportWith_mid {cfg : Cfg} {k : St → St} {x q d s} (hm : cfg.maxCalls = 1)
-    (hk : Cached k) (h : Mid cfg x q d s) (hf : s.flying = false) (r : Report) (b : Beh) :
+    (hk : Cached cfg k) (h : Mid cfg x q d s) (hf : s.flying = false) (r : Report) (b : Beh) :
     Mid cfg x q d (reportWith cfg k s r b) ∧ Same s (reportWith cfg k s r b) ∧
       (b.raises = false → (reportWith cfg k s r b).flying = false) := by
-  obtain ⟨hp, hr, hc, ⟨l0, hn⟩, hs, hpo, hin, hq⟩ := h
+  obtain ⟨hnl, hp, hr, hc, ⟨l0, hn⟩, hs, hpo, hin, hq⟩ := h
   by_cases h0 : s.callsMade = 0
   · -- first report ever: delivered
     have hno : ¬(cfg.maxCalls ≠ 0 ∧ s.callsMade + 1 > cfg.maxCalls) := by rw [hm, h0]; simp
@@ -280,35 +297,35 @@ theorem reportWith_mid {cfg : Cfg} {k : St → St} {x q d s} (hm : cfg.maxCalls 
     have hnot : s.notified = [] := (List.append_eq_nil_iff.mp hn).1
     have hd : d = [] := (List.append_eq_nil_iff.mp hn).2
     subst hd
-    have hk' := hk { s with reports := s.reports ++ [r], callsMade := s.callsMade + 1 } x hp
+    have hk' := hk { s with reports := s.reports ++ [r], callsMade := s.callsMade + 1 } x hp hnl
     rcases listener_cases s with hl' | hl' | hl'
     · rw [reportWith_none r b hno hl', hk']
-      exact ⟨⟨hp, hr, by simp [hrs, h0], ⟨.none, by simp [firstOf, hnot]⟩, hs, hpo, hin, by simp⟩,
-        ⟨⟨rfl, rfl, rfl⟩, rfl⟩, fun _ => hf⟩
+      exact ⟨⟨hnl, hp, hr, by simp [hrs, h0], ⟨.none, by simp [firstOf, hnot]⟩, hs, hpo, hin, by simp⟩,
+        ⟨⟨rfl, rfl, rfl⟩, rfl, rfl, rfl⟩, fun _ => hf⟩
     · rw [reportWith_alive r b hno hl', hk']
       rw [if_neg (by simp [hf])]
       have hmid : Mid cfg x false [r]
           { s with reports := s.reports ++ [r], callsMade := s.callsMade + 1 } :=
-        ⟨hp, hr, by simp [hrs, h0], ⟨.alive, by simp [firstOf, hnot, hrs]⟩, hs, hpo, hin, by simp⟩
+        ⟨hnl, hp, hr, by simp [hrs, h0], ⟨.alive, by simp [firstOf, hnot, hrs]⟩, hs, hpo, hin, by simp⟩
       obtain ⟨a, bb, c⟩ := handler_cached (cfg := cfg) hk r b hmid hf
-      exact ⟨a, Same.trans ⟨⟨rfl, rfl, rfl⟩, rfl⟩ bb, c⟩
+      exact ⟨a, Same.trans ⟨⟨rfl, rfl, rfl⟩, rfl, rfl, rfl⟩ bb, c⟩
     · rw [reportWith_dead r b hno hl']
-      exact ⟨⟨hp, hr, by simp [hrs, h0], ⟨.dead, by simp [firstOf, hnot]⟩, hs, hpo, hin, by simp⟩,
-        ⟨⟨rfl, rfl, rfl⟩, rfl⟩, fun _ => hf⟩
+      exact ⟨⟨hnl, hp, hr, by simp [hrs, h0], ⟨.dead, by simp [firstOf, hnot]⟩, hs, hpo, hin, by simp⟩,
+        ⟨⟨rfl, rfl, rfl⟩, rfl, rfl, rfl⟩, fun _ => hf⟩
   · -- max_calls exhausted: swallowed
     have hne : s.reports ≠ [] := by
       intro he; rw [he] at hc; simp at hc; exact h0 hc
     have hover : cfg.maxCalls ≠ 0 ∧ s.callsMade + 1 > cfg.maxCalls := by rw [hm]; omega
     rw [reportWith_over r b hover]
-    exact ⟨⟨hp, hr, by simp [hc], ⟨l0, by simpa [firstOf_append_of_ne _ _ _ hne] using hn⟩, hs, hpo, hin,
-      fun hq1 => ⟨by simp, (hq hq1).2⟩⟩, ⟨⟨rfl, rfl, rfl⟩, rfl⟩, fun _ => hf⟩
+    exact ⟨⟨hnl, hp, hr, by simp [hc], ⟨l0, by simpa [firstOf_append_of_ne _ _ _ hne] using hn⟩, hs, hpo, hin,
+      fun hq1 => ⟨by simp, (hq hq1).2⟩⟩, ⟨⟨rfl, rfl, rfl⟩, rfl, rfl, rfl⟩, fun _ => hf⟩
 
 /-- the reports one protocol emits while it is being closed -/
 abbrev emit (cfg : Cfg) (k : St → St) (i : Nat) (s : St) (rb : Kind × Beh) : St :=
   if s.flying then s else reportWith cfg k s ⟨i, rb.1⟩ rb.2
 
 theorem foldl_emit_mid {cfg : Cfg} {k : St → St} {x q d} (hm : cfg.maxCalls = 1)
-    (hk : Cached k) (i : Nat) (rbs : List (Kind × Beh)) :
+    (hk : Cached cfg k) (i : Nat) (rbs : List (Kind × Beh)) :
     ∀ s, Mid cfg x q d s →
       Mid cfg x q d (rbs.foldl (emit cfg k i) s) ∧ Same s (rbs.foldl (emit cfg k i) s) ∧
         ((∀ rb ∈ rbs, rb.2.raises = false) → s.flying = false →
@@ -333,7 +350,7 @@ theorem foldl_emit_mid {cfg : Cfg} {k : St → St} {x q d} (hm : cfg.maxCalls = 
       exact c' (fun rb' hrb' => hben rb' (List.mem_cons_of_mem _ hrb')) (c (hben rb (by simp)))
 
 theorem closeProtos_mid {cfg : Cfg} {k : St → St} {x q d} (hm : cfg.maxCalls = 1)
-    (hk : Cached k) (ps : List Proto) :
+    (hk : Cached cfg k) (ps : List Proto) :
     ∀ i s, Mid cfg x q d s →
       Mid cfg x q d (closeProtos cfg k i ps s) ∧
       (∃ j, j ≤ ps.length ∧ (closeProtos cfg k i ps s).closeLog = s.closeLog ++ List.range' i j ∧
@@ -347,7 +364,7 @@ theorem closeProtos_mid {cfg : Cfg} {k : St → St} {x q d} (hm : cfg.maxCalls =
   | cons p ps ih =>
     intro i s h
     have h1 : Mid cfg x q d { s with closeLog := s.closeLog ++ [i] } :=
-      ⟨h.pending, h.raised, h.calls, h.notif, h.shield, h.pushOn, h.inner, h.quiet⟩
+      ⟨h.nolate, h.pending, h.raised, h.calls, h.notif, h.shield, h.pushOn, h.inner, h.quiet⟩
     obtain ⟨h2, hsame, hben2⟩ := foldl_emit_mid hm hk i p.onClose _ h1
     have hlog2 : (p.onClose.foldl (emit cfg k i) { s with closeLog := s.closeLog ++ [i] }).closeLog
         = s.closeLog ++ [i] := hsame.1.2.2
@@ -370,7 +387,7 @@ theorem closeProtos_mid {cfg : Cfg} {k : St → St} {x q d} (hm : cfg.maxCalls =
     · have hf2' : s2.flying = false := by simpa using hf2
       rw [if_neg hf2]
       have h3 : Mid cfg x q d { s2 with tasks := s2.tasks + p.tasks } :=
-        ⟨h2.pending, h2.raised, h2.calls, h2.notif, h2.shield, h2.pushOn, h2.inner, h2.quiet⟩
+        ⟨h2.nolate, h2.pending, h2.raised, h2.calls, h2.notif, h2.shield, h2.pushOn, h2.inner, h2.quiet⟩
       obtain ⟨a, ⟨j, hj, hlog, hfull⟩, c⟩ := ih (i + 1) _ h3
       refine ⟨a, ⟨j + 1, by simp; omega, ?_, fun hff => by simp [hfull hff]⟩, ?_⟩
       · rw [hlog]
@@ -406,96 +423,332 @@ theorem closeF_open {cfg : Cfg} (wf : WF cfg) (f : Nat) (q : Bool) (d : List Rep
   rw [if_neg (by simp [hr])]
   have h0 : Mid cfg s.nextId q d
       { s with pushOn := false, pending := some s.nextId, nextId := s.nextId + 1, tasks := 1,
-               shield := List.replicate cfg.nObjs (some true) } :=
-    ⟨rfl, hr, hc, hn, rfl, rfl, hin, hq⟩
+               shield := List.replicate cfg.nObjs (some true),
+               closedUpTo := (cfg.protos.take s.handlers).length } :=
+    ⟨Nat.le_refl _, rfl, hr, hc, hn, rfl, rfl, hin, hq⟩
   obtain ⟨a, ⟨j, hj, hlog, hfull⟩, c⟩ :=
     closeProtos_mid wf.maxCalls (cached_closeF cfg f) (cfg.protos.take s.handlers) 0 _ h0
   exact ⟨a, ⟨j, hj, by simpa [hl] using hlog, hfull⟩,
     fun hb hf => c (fun p hp => hb p (List.mem_of_mem_take hp)) hf⟩
 
-/-! ### nothing but the setter touches the registered listener -/
-
-def KeepL (k : St → St) : Prop := ∀ s, (k s).listener = s.listener
-
-theorem runInner_keepL {cfg : Cfg} {k : St → St} (hk : KeepL k) (dl : Bool) (es : List InEv) :
-    ∀ s, (runInner cfg k dl s es).listener = s.listener := by
-  induction es with
-  | nil => intro s; rfl
-  | cons e es ih =>
-    intro s
-    cases e with
-    | api m => simp only [runInner]; rw [ih]
-    | close =>
-      simp only [runInner]
-      split
-      · rw [ih]; exact hk s
-      · rw [ih]; exact hk s
-
-theorem handler_keepL {cfg : Cfg} {k : St → St} (hk : KeepL k) (s : St) (r : Report) (b : Beh) :
-    (handler cfg k s r b).listener = s.listener := by
-  unfold handler
-  simp only []
-  split
-  · exact runInner_keepL hk true b.inner _
-  · exact runInner_keepL hk true b.inner _
-
-theorem reportWith_keepL {cfg : Cfg} {k : St → St} (hk : KeepL k) (s : St) (r : Report) (b : Beh) :
-    (reportWith cfg k s r b).listener = s.listener := by
-  by_cases h : cfg.maxCalls ≠ 0 ∧ s.callsMade + 1 > cfg.maxCalls
-  · rw [reportWith_over r b h]
-  · rcases listener_cases s with hl | hl | hl
-    · rw [reportWith_none r b h hl]; exact hk _
-    · rw [reportWith_alive r b h hl]
-      split
-      · exact hk _
-      · rw [handler_keepL hk]; exact hk _
-    · rw [reportWith_dead r b h hl]
-
-theorem foldl_emit_keepL {cfg : Cfg} {k : St → St} (hk : KeepL k) (i : Nat)
-    (rbs : List (Kind × Beh)) : ∀ s, (rbs.foldl (emit cfg k i) s).listener = s.listener := by
-  induction rbs with
-  | nil => intro s; rfl
-  | cons rb rbs ih =>
-    intro s
-    simp only [List.foldl_cons]
-    rw [ih]
-    unfold emit
-    split
-    · rfl
-    · exact reportWith_keepL hk s _ _
-
-theorem closeProtos_keepL {cfg : Cfg} {k : St → St} (hk : KeepL k) (ps : List Proto) :
-    ∀ i s, (closeProtos cfg k i ps s).listener = s.listener := by
+theorem closeProtos_same {cfg : Cfg} {k : St → St} {x q d} (hm : cfg.maxCalls = 1)
+    (hk : Cached cfg k) (ps : List Proto) :
+    ∀ i s, Mid cfg x q d s →
+      (closeProtos cfg k i ps s).closedUpTo = s.closedUpTo ∧
+      (closeProtos cfg k i ps s).handlers = s.handlers ∧
+      (closeProtos cfg k i ps s).listener = s.listener ∧
+      s.tasks ≤ (closeProtos cfg k i ps s).tasks := by
   induction ps with
-  | nil => intro i s; rfl
+  | nil => intro i s _; exact ⟨rfl, rfl, rfl, Nat.le_refl _⟩
   | cons p ps ih =>
-    intro i s
-    have h2 := foldl_emit_keepL (cfg := cfg) hk i p.onClose { s with closeLog := s.closeLog ++ [i] }
-    show (if (p.onClose.foldl (emit cfg k i) { s with closeLog := s.closeLog ++ [i] }).flying then
+    intro i s h
+    have h1 : Mid cfg x q d { s with closeLog := s.closeLog ++ [i] } :=
+      ⟨h.nolate, h.pending, h.raised, h.calls, h.notif, h.shield, h.pushOn, h.inner, h.quiet⟩
+    obtain ⟨h2, hsame, _⟩ := foldl_emit_mid hm hk i p.onClose _ h1
+    rw [show closeProtos cfg k i (p :: ps) s =
+      (if (p.onClose.foldl (emit cfg k i) { s with closeLog := s.closeLog ++ [i] }).flying then
         p.onClose.foldl (emit cfg k i) { s with closeLog := s.closeLog ++ [i] }
        else closeProtos cfg k (i + 1) ps
         { (p.onClose.foldl (emit cfg k i) { s with closeLog := s.closeLog ++ [i] }) with
-          tasks := (p.onClose.foldl (emit cfg k i) { s with closeLog := s.closeLog ++ [i] }).tasks + p.tasks }).listener
-      = s.listener
+          tasks := (p.onClose.foldl (emit cfg k i) { s with closeLog := s.closeLog ++ [i] }).tasks + p.tasks })
+      from rfl]
+    generalize p.onClose.foldl (emit cfg k i) { s with closeLog := s.closeLog ++ [i] } = s2 at *
+    have e1 : s2.closedUpTo = s.closedUpTo := hsame.2.2.2
+    have e2 : s2.handlers = s.handlers := hsame.2.2.1
+    have e3 : s2.listener = s.listener := hsame.2.1
+    have e4 : s2.tasks = s.tasks := hsame.1.2.1
     split
-    · exact h2
-    · rw [ih]; exact h2
+    · exact ⟨e1, e2, e3, by rw [e4]; exact Nat.le_refl _⟩
+    · have h3 : Mid cfg x q d { s2 with tasks := s2.tasks + p.tasks } :=
+        ⟨h2.nolate, h2.pending, h2.raised, h2.calls, h2.notif, h2.shield, h2.pushOn, h2.inner, h2.quiet⟩
+      obtain ⟨c1, c2, c3, c4⟩ := ih (i + 1) _ h3
+      refine ⟨c1.trans e1, c2.trans e2, c3.trans e3, ?_⟩
+      exact Nat.le_trans (by rw [← e4]; exact Nat.le_add_right _ _) c4
 
-theorem closeF_keepL (cfg : Cfg) : ∀ f, KeepL (closeF cfg f) := by
-  intro f
-  induction f with
-  | zero => intro s; rfl
-  | succ f ih =>
-    intro s
-    rw [closeF]
-    split
-    · rfl
-    · split
-      · rfl
-      · dsimp only
-        split
-        · rfl
-        · rw [closeProtos_keepL ih]; rfl
+/-! ### the close log -/
+
+/-- each protocol's `close()` ran at most once, and only for protocols marked as closed -/
+def LogOk (s : St) : Prop :=
+  s.closeLog.Pairwise (· < ·) ∧ ∀ j ∈ s.closeLog, j < s.closedUpTo
+
+/-- every protocol marked as closed was closed, in order -/
+def LogEq (s : St) : Prop := s.closeLog = List.range' 0 s.closedUpTo
+
+/-- what a `close()` of an already closed device may change -/
+structure Ext (s r : St) : Prop where
+  listener : r.listener = s.listener
+  handlers : r.handlers = s.handlers
+  cu : s.closedUpTo ≤ r.closedUpTo
+  logOk : LogOk s → LogOk r
+  logEq : LogEq s → LogEq r
+  tasks : s.tasks ≤ r.tasks
+  pending : r.pending = s.pending
+
+theorem Ext.refl (s : St) : Ext s s := ⟨rfl, rfl, Nat.le_refl _, id, id, Nat.le_refl _, rfl⟩
+
+theorem Ext.trans {a b c : St} (h1 : Ext a b) (h2 : Ext b c) : Ext a c :=
+  ⟨h2.listener.trans h1.listener, h2.handlers.trans h1.handlers, Nat.le_trans h1.cu h2.cu,
+    fun h => h2.logOk (h1.logOk h), fun h => h2.logEq (h1.logEq h), Nat.le_trans h1.tasks h2.tasks,
+    h2.pending.trans h1.pending⟩
+
+theorem Ext.of_same {s r : St} (h : Same s r) : Ext s r := by
+  obtain ⟨⟨hp, ht, hl⟩, hli, hh, hc⟩ := h
+  refine ⟨hli, hh, by rw [hc]; exact Nat.le_refl _, ?_, ?_, by rw [ht]; exact Nat.le_refl _, hp⟩
+  · intro h; unfold LogOk at *; rw [hl, hc]; exact h
+  · intro h; unfold LogEq at *; rw [hl, hc]; exact h
+
+/-- the step of the late loop that marks and logs protocol `i = closedUpTo` -/
+theorem Ext.mark (s : St) (i : Nat) (hi : i = s.closedUpTo) :
+    Ext s { s with closedUpTo := i + 1, closeLog := s.closeLog ++ [i] } := by
+  refine ⟨rfl, rfl, by show s.closedUpTo ≤ i + 1; omega, ?_, ?_, Nat.le_refl _, rfl⟩
+  · intro ⟨hp, hlt⟩
+    refine ⟨?_, ?_⟩
+    · show (s.closeLog ++ [i]).Pairwise (· < ·)
+      rw [List.pairwise_append]
+      refine ⟨hp, by simp, ?_⟩
+      intro a ha b hb
+      simp only [List.mem_singleton] at hb
+      subst hb
+      have := hlt a ha
+      omega
+    · intro j hj
+      show j < i + 1
+      rcases List.mem_append.mp hj with hj | hj
+      · have := hlt j hj; omega
+      · simp only [List.mem_singleton] at hj; omega
+  · intro h
+    show s.closeLog ++ [i] = List.range' 0 (i + 1)
+    unfold LogEq at h
+    rw [h, hi, List.range'_concat]
+    simp
+
+/-! ### close() on a device that is already closed: the late protocols -/
+
+/-- `Mid` without the claim that nothing is late -/
+structure MidL (cfg : Cfg) (x : Nat) (d : List Report) (s : St) : Prop where
+  pending : s.pending = some x
+  raised : s.raised = false
+  calls : s.callsMade = s.reports.length
+  notif : ∃ l, s.notified ++ d = firstOf l s.reports
+  shield : s.shield = List.replicate cfg.nObjs (some true)
+  pushOn : s.pushOn = false
+  inner : ∀ e ∈ s.inner, InnerOk cfg e
+
+theorem Mid.toL {cfg : Cfg} {x q d s} (h : Mid cfg x q d s) : MidL cfg x d s :=
+  ⟨h.pending, h.raised, h.calls, h.notif, h.shield, h.pushOn, h.inner⟩
+
+theorem MidL.toMid {cfg : Cfg} {x d s} (h : MidL cfg x d s) (hnl : NoLate cfg s) (q : Bool)
+    (hq : q = true → 1 ≤ s.callsMade ∧ s.flying = false) : Mid cfg x q d s :=
+  ⟨hnl, h.pending, h.raised, h.calls, h.notif, h.shield, h.pushOn, h.inner, hq⟩
+
+theorem lateLoop_skip1 {cfg : Cfg} {k : St → St} {i : Nat} {p : Proto} {ps : List Proto} {s : St}
+    (h : i < s.closedUpTo) : lateLoop cfg k i (p :: ps) s = lateLoop cfg k (i + 1) ps s := by
+  rw [lateLoop, if_pos h]
+
+theorem lateLoop_do {cfg : Cfg} {k : St → St} {i : Nat} {p : Proto} {ps : List Proto} {s : St}
+    (h : ¬ i < s.closedUpTo) :
+    lateLoop cfg k i (p :: ps) s =
+      (if (p.onClose.foldl (emit cfg k i)
+          { s with closedUpTo := i + 1, closeLog := s.closeLog ++ [i] }).flying then
+        p.onClose.foldl (emit cfg k i) { s with closedUpTo := i + 1, closeLog := s.closeLog ++ [i] }
+       else lateLoop cfg k (i + 1) ps
+        { (p.onClose.foldl (emit cfg k i)
+            { s with closedUpTo := i + 1, closeLog := s.closeLog ++ [i] }) with
+          tasks := (p.onClose.foldl (emit cfg k i)
+            { s with closedUpTo := i + 1, closeLog := s.closeLog ++ [i] }).tasks + p.tasks }) := by
+  rw [lateLoop, if_neg h]
+
+/-- a report after the budget is spent: swallowed, whatever `k` is -/
+theorem reportWith_quiet {cfg : Cfg} {k : St → St} {x d s} (hm : cfg.maxCalls = 1)
+    (h : MidL cfg x d s) (h1 : 1 ≤ s.callsMade) (r : Report) (b : Beh) :
+    MidL cfg x d (reportWith cfg k s r b) ∧ Same s (reportWith cfg k s r b) ∧
+      (reportWith cfg k s r b).flying = s.flying ∧ 1 ≤ (reportWith cfg k s r b).callsMade := by
+  have hover : cfg.maxCalls ≠ 0 ∧ s.callsMade + 1 > cfg.maxCalls := by rw [hm]; omega
+  have hne : s.reports ≠ [] := by
+    intro he; have := h.calls; rw [he] at this; simp at this; omega
+  rw [reportWith_over r b hover]
+  obtain ⟨l0, hn⟩ := h.notif
+  exact ⟨⟨h.pending, h.raised, by simp [h.calls],
+    ⟨l0, by simpa [firstOf_append_of_ne _ _ _ hne] using hn⟩, h.shield, h.pushOn, h.inner⟩,
+    ⟨⟨rfl, rfl, rfl⟩, rfl, rfl, rfl⟩, rfl, by simp⟩
+
+theorem foldl_emit_quiet {cfg : Cfg} {k : St → St} {x d} (hm : cfg.maxCalls = 1) (i : Nat)
+    (rbs : List (Kind × Beh)) :
+    ∀ s, MidL cfg x d s → 1 ≤ s.callsMade → s.flying = false →
+      MidL cfg x d (rbs.foldl (emit cfg k i) s) ∧ Same s (rbs.foldl (emit cfg k i) s) ∧
+        (rbs.foldl (emit cfg k i) s).flying = false ∧ 1 ≤ (rbs.foldl (emit cfg k i) s).callsMade := by
+  induction rbs with
+  | nil => intro s h h1 hf; exact ⟨h, Same.refl s, hf, h1⟩
+  | cons rb rbs ih =>
+    intro s h h1 hf
+    simp only [List.foldl_cons]
+    have he : emit cfg k i s rb = reportWith cfg k s ⟨i, rb.1⟩ rb.2 := by simp [emit, hf]
+    rw [he]
+    obtain ⟨a, b, c, e⟩ := reportWith_quiet (k := k) hm h h1 ⟨i, rb.1⟩ rb.2
+    obtain ⟨a', b', c', e'⟩ := ih _ a e (by rw [c]; exact hf)
+    exact ⟨a', Same.trans b b', c', e'⟩
+
+theorem lateLoop_quiet {cfg : Cfg} {k : St → St} {x d} (hm : cfg.maxCalls = 1) (ps : List Proto) :
+    ∀ i s, MidL cfg x d s → 1 ≤ s.callsMade → s.flying = false → i ≤ s.closedUpTo →
+      MidL cfg x d (lateLoop cfg k i ps s) ∧ Ext s (lateLoop cfg k i ps s) ∧
+        (lateLoop cfg k i ps s).flying = false ∧ 1 ≤ (lateLoop cfg k i ps s).callsMade ∧
+        i + ps.length ≤ (lateLoop cfg k i ps s).closedUpTo := by
+  induction ps with
+  | nil => intro i s h h1 hf hi; exact ⟨h, Ext.refl s, hf, h1, by simpa [lateLoop] using hi⟩
+  | cons p ps ih =>
+    intro i s h h1 hf hi
+    by_cases hlt : i < s.closedUpTo
+    · rw [lateLoop_skip1 hlt]
+      obtain ⟨a, b, c, e, g⟩ := ih (i + 1) s h h1 hf hlt
+      exact ⟨a, b, c, e, by simp; omega⟩
+    · have hieq : i = s.closedUpTo := by omega
+      rw [lateLoop_do hlt]
+      have h' : MidL cfg x d { s with closedUpTo := i + 1, closeLog := s.closeLog ++ [i] } :=
+        ⟨h.pending, h.raised, h.calls, h.notif, h.shield, h.pushOn, h.inner⟩
+      obtain ⟨h2, hsame, hf2, h12⟩ := foldl_emit_quiet (k := k) hm i p.onClose _ h' h1 hf
+      generalize p.onClose.foldl (emit cfg k i)
+        { s with closedUpTo := i + 1, closeLog := s.closeLog ++ [i] } = s2 at *
+      rw [if_neg (by simp [hf2])]
+      have h3 : MidL cfg x d { s2 with tasks := s2.tasks + p.tasks } :=
+        ⟨h2.pending, h2.raised, h2.calls, h2.notif, h2.shield, h2.pushOn, h2.inner⟩
+      have hcu : i + 1 ≤ s2.closedUpTo := by rw [hsame.2.2.2]; exact Nat.le_refl _
+      obtain ⟨a, b, c, e, g⟩ := ih (i + 1) { s2 with tasks := s2.tasks + p.tasks } h3 h12 hf2 hcu
+      refine ⟨a, ?_, c, e, by simp; omega⟩
+      refine ((Ext.mark s i hieq).trans (Ext.of_same hsame)).trans (Ext.trans ?_ b)
+      exact ⟨rfl, rfl, Nat.le_refl _, id, id, Nat.le_add_right _ _, rfl⟩
+
+theorem nolate_of {cfg : Cfg} {s r : St} (hh : r.handlers = s.handlers)
+    (h : (cfg.protos.take s.handlers).length ≤ r.closedUpTo) : NoLate cfg r := by
+  unfold NoLate; rw [hh]; exact h
+
+/-- close() on a closed device after the budget is spent: the late protocols are closed, nobody
+    is notified, nothing can raise -/
+theorem closeF_quiet {cfg : Cfg} {x d} (hm : cfg.maxCalls = 1) (f : Nat) (s : St)
+    (h : MidL cfg x d s) (h1 : 1 ≤ s.callsMade) (hf : s.flying = false) :
+    MidL cfg x d (closeF cfg (f + 1) s) ∧ Ext s (closeF cfg (f + 1) s) ∧
+      (closeF cfg (f + 1) s).flying = false ∧ 1 ≤ (closeF cfg (f + 1) s).callsMade ∧
+      NoLate cfg (closeF cfg (f + 1) s) := by
+  rw [closeF]
+  simp only [h.pending]
+  obtain ⟨a, b, c, e, g⟩ := lateLoop_quiet (k := closeF cfg f) hm (cfg.protos.take s.handlers) 0 s h h1 hf
+    (Nat.zero_le _)
+  exact ⟨a, b, c, e, nolate_of b.handlers (by simpa using g)⟩
+
+/-- a report on a closed device (late protocols or not): `k` is the real close() -/
+theorem reportWith_late {cfg : Cfg} {x s} (hm : cfg.maxCalls = 1) (f : Nat)
+    (h : MidL cfg x [] s) (hf : s.flying = false) (r : Report) (b : Beh) :
+    MidL cfg x [] (reportWith cfg (closeF cfg (f + 1)) s r b) ∧
+      Ext s (reportWith cfg (closeF cfg (f + 1)) s r b) ∧
+      (b.raises = false → (reportWith cfg (closeF cfg (f + 1)) s r b).flying = false) := by
+  by_cases h0 : s.callsMade = 0
+  · have hno : ¬(cfg.maxCalls ≠ 0 ∧ s.callsMade + 1 > cfg.maxCalls) := by rw [hm, h0]; simp
+    have hrs : s.reports = [] := by
+      have : s.reports.length = 0 := by have := h.calls; omega
+      exact List.eq_nil_of_length_eq_zero this
+    have hnot : s.notified = [] := by
+      obtain ⟨l, hl⟩ := h.notif
+      rw [hrs, firstOf_nil] at hl
+      exact (List.append_eq_nil_iff.mp hl).1
+    have hs1 : Same s { s with reports := s.reports ++ [r], callsMade := s.callsMade + 1 } :=
+      ⟨⟨rfl, rfl, rfl⟩, rfl, rfl, rfl⟩
+    rcases listener_cases s with hl | hl | hl
+    · rw [reportWith_none r b hno hl]
+      have hm1 : MidL cfg x [] { s with reports := s.reports ++ [r], callsMade := s.callsMade + 1 } :=
+        ⟨h.pending, h.raised, by simp [hrs, h0], ⟨.none, by simp [firstOf, hnot]⟩, h.shield, h.pushOn,
+          h.inner⟩
+      obtain ⟨a, bb, c, _, _⟩ := closeF_quiet hm f _ hm1 (by simp) hf
+      exact ⟨a, (Ext.of_same hs1).trans bb, fun _ => c⟩
+    · rw [reportWith_alive r b hno hl]
+      have hm1 : MidL cfg x [r] { s with reports := s.reports ++ [r], callsMade := s.callsMade + 1 } :=
+        ⟨h.pending, h.raised, by simp [hrs, h0], ⟨.alive, by simp [firstOf, hnot, hrs]⟩, h.shield,
+          h.pushOn, h.inner⟩
+      obtain ⟨a, bb, c, e, g⟩ := closeF_quiet hm f _ hm1 (by simp) hf
+      rw [if_neg (by simp [c])]
+      obtain ⟨a', b', c'⟩ := handler_cached (cfg := cfg) (cached_closeF cfg f) r b
+        (a.toMid g false (by simp)) c
+      exact ⟨a'.toL, ((Ext.of_same hs1).trans bb).trans (Ext.of_same b'), c'⟩
+    · rw [reportWith_dead r b hno hl]
+      exact ⟨⟨h.pending, h.raised, by simp [hrs, h0], ⟨.dead, by simp [firstOf, hnot]⟩, h.shield,
+        h.pushOn, h.inner⟩, Ext.of_same hs1, fun _ => hf⟩
+  · obtain ⟨a, bb, c, _⟩ := reportWith_quiet (k := closeF cfg (f + 1)) hm h (by omega) r b
+    exact ⟨a, Ext.of_same bb, fun _ => by rw [c]; exact hf⟩
+
+theorem foldl_emit_late {cfg : Cfg} {x} (hm : cfg.maxCalls = 1) (f : Nat) (i : Nat)
+    (rbs : List (Kind × Beh)) :
+    ∀ s, MidL cfg x [] s →
+      MidL cfg x [] (rbs.foldl (emit cfg (closeF cfg (f + 1)) i) s) ∧
+        Ext s (rbs.foldl (emit cfg (closeF cfg (f + 1)) i) s) ∧
+        ((∀ rb ∈ rbs, rb.2.raises = false) → s.flying = false →
+          (rbs.foldl (emit cfg (closeF cfg (f + 1)) i) s).flying = false) := by
+  induction rbs with
+  | nil => intro s h; exact ⟨h, Ext.refl s, fun _ hf => hf⟩
+  | cons rb rbs ih =>
+    intro s h
+    simp only [List.foldl_cons]
+    by_cases hf : s.flying = true
+    · have he : emit cfg (closeF cfg (f + 1)) i s rb = s := by simp [emit, hf]
+      rw [he]
+      obtain ⟨a, b, _⟩ := ih s h
+      exact ⟨a, b, fun _ hf' => by rw [hf'] at hf; simp at hf⟩
+    · have hf' : s.flying = false := by simpa using hf
+      have he : emit cfg (closeF cfg (f + 1)) i s rb
+          = reportWith cfg (closeF cfg (f + 1)) s ⟨i, rb.1⟩ rb.2 := by simp [emit, hf']
+      rw [he]
+      obtain ⟨a, b, c⟩ := reportWith_late hm f h hf' ⟨i, rb.1⟩ rb.2
+      obtain ⟨a', b', c'⟩ := ih _ a
+      exact ⟨a', b.trans b', fun hben _ =>
+        c' (fun rb' hrb' => hben rb' (List.mem_cons_of_mem _ hrb')) (c (hben rb (by simp)))⟩
+
+theorem lateLoop_late {cfg : Cfg} {x} (hm : cfg.maxCalls = 1) (f : Nat) (ps : List Proto) :
+    ∀ i s, MidL cfg x [] s → i ≤ s.closedUpTo →
+      MidL cfg x [] (lateLoop cfg (closeF cfg (f + 1)) i ps s) ∧
+        Ext s (lateLoop cfg (closeF cfg (f + 1)) i ps s) ∧
+        ((lateLoop cfg (closeF cfg (f + 1)) i ps s).flying = false →
+          i + ps.length ≤ (lateLoop cfg (closeF cfg (f + 1)) i ps s).closedUpTo) ∧
+        ((∀ p ∈ ps, ∀ rb ∈ p.onClose, rb.2.raises = false) → s.flying = false →
+          (lateLoop cfg (closeF cfg (f + 1)) i ps s).flying = false) := by
+  induction ps with
+  | nil => intro i s h hi; exact ⟨h, Ext.refl s, fun _ => by simpa [lateLoop] using hi, fun _ hf => hf⟩
+  | cons p ps ih =>
+    intro i s h hi
+    by_cases hlt : i < s.closedUpTo
+    · rw [lateLoop_skip1 hlt]
+      obtain ⟨a, b, g, gb⟩ := ih (i + 1) s h hlt
+      exact ⟨a, b, fun hff => by have := g hff; simp; omega,
+        fun hben hf => gb (fun p' hp' => hben p' (List.mem_cons_of_mem _ hp')) hf⟩
+    · have hieq : i = s.closedUpTo := by omega
+      rw [lateLoop_do hlt]
+      have h' : MidL cfg x [] { s with closedUpTo := i + 1, closeLog := s.closeLog ++ [i] } :=
+        ⟨h.pending, h.raised, h.calls, h.notif, h.shield, h.pushOn, h.inner⟩
+      obtain ⟨h2, hext, hb2⟩ := foldl_emit_late hm f i p.onClose _ h'
+      generalize p.onClose.foldl (emit cfg (closeF cfg (f + 1)) i)
+        { s with closedUpTo := i + 1, closeLog := s.closeLog ++ [i] } = s2 at *
+      by_cases hf2 : s2.flying = true
+      · rw [if_pos hf2]
+        exact ⟨h2, (Ext.mark s i hieq).trans hext, fun hff => by rw [hff] at hf2; simp at hf2,
+          fun hben hf => by have := hb2 (hben p (by simp)) hf; rw [this] at hf2; simp at hf2⟩
+      · rw [if_neg hf2]
+        have h3 : MidL cfg x [] { s2 with tasks := s2.tasks + p.tasks } :=
+          ⟨h2.pending, h2.raised, h2.calls, h2.notif, h2.shield, h2.pushOn, h2.inner⟩
+        have hcu : i + 1 ≤ s2.closedUpTo := hext.cu
+        obtain ⟨a, b, g, gb⟩ := ih (i + 1) { s2 with tasks := s2.tasks + p.tasks } h3 hcu
+        refine ⟨a, ?_, fun hff => by have := g hff; simp; omega,
+          fun hben _ => gb (fun p' hp' => hben p' (List.mem_cons_of_mem _ hp')) (by simpa using hf2)⟩
+        refine ((Ext.mark s i hieq).trans hext).trans (Ext.trans ?_ b)
+        exact ⟨rfl, rfl, Nat.le_refl _, id, id, Nat.le_add_right _ _, rfl⟩
+
+/-- **close() on a closed device**, top level: the late protocols are closed, their tasks join
+    the same set; afterwards nothing is late (unless a user handler raised into the loop) -/
+theorem closeF_closed {cfg : Cfg} {x} (hm : cfg.maxCalls = 1) (f : Nat) (s : St)
+    (h : MidL cfg x [] s) :
+    MidL cfg x [] (closeF cfg (f + 2) s) ∧ Ext s (closeF cfg (f + 2) s) ∧
+      ((closeF cfg (f + 2) s).flying = false → NoLate cfg (closeF cfg (f + 2) s)) ∧
+      (BenignProtos cfg → s.flying = false → (closeF cfg (f + 2) s).flying = false) := by
+  rw [closeF]
+  simp only [h.pending]
+  obtain ⟨a, b, g, gb⟩ := lateLoop_late hm f (cfg.protos.take s.handlers) 0 s h (Nat.zero_le _)
+  exact ⟨a, b, fun hff => nolate_of b.handlers (by simpa using g hff),
+    fun hb hf => gb (fun p hp => hb p (List.mem_of_mem_take hp)) hf⟩
 
 /-! ### the invariant between events -/
 
@@ -506,11 +759,12 @@ structure Inv' (cfg : Cfg) (s : St) : Prop where
   notif : ∃ l, s.notified = firstOf l s.reports    -- l: what was registered when the first report came
   live : s.listener ≠ .dead
   opened : s.pending = none →
-    s.reports = [] ∧ s.closeLog = [] ∧ s.shield = List.replicate cfg.nObjs (some false)
+    s.reports = [] ∧ s.closeLog = [] ∧ s.shield = List.replicate cfg.nObjs (some false) ∧
+      s.closedUpTo = 0
   closed : ∀ x, s.pending = some x →
-    s.shield = List.replicate cfg.nObjs (some true) ∧ s.pushOn = false ∧
-      s.closeLog <+: List.range' 0 cfg.protos.length ∧
-      (BenignProtos cfg → ∃ h, s.closeLog = List.range' 0 (cfg.protos.take h).length)
+    s.shield = List.replicate cfg.nObjs (some true) ∧ s.pushOn = false
+  logOk : LogOk s
+  logEq : BenignProtos cfg → LogEq s
   inner : ∀ e ∈ s.inner, InnerOk cfg e
 
 def Inv (cfg : Cfg) (s : St) : Prop := Inv' cfg s ∧ s.flying = false
@@ -518,97 +772,123 @@ def Inv (cfg : Cfg) (s : St) : Prop := Inv' cfg s ∧ s.flying = false
 theorem take_len_le {α : Type} (n : Nat) (l : List α) : (l.take n).length ≤ l.length := by
   simp [List.length_take]; omega
 
-theorem range'_prefix (j n : Nat) (h : j ≤ n) : List.range' 0 j <+: List.range' 0 n := by
-  obtain ⟨m, rfl⟩ := Nat.exists_eq_add_of_le h
-  rw [List.range'_append_1 |>.symm]
-  exact List.prefix_append _ _
+theorem Inv'.of_midL {cfg : Cfg} {x s} (h : MidL cfg x [] s) (hlive : s.listener ≠ .dead)
+    (hlog : LogOk s) (hben : BenignProtos cfg → LogEq s) : Inv' cfg s :=
+  ⟨h.raised, h.calls, by obtain ⟨l, hl⟩ := h.notif; exact ⟨l, by simpa using hl⟩, hlive,
+    by simp [h.pending], fun _ _ => ⟨h.shield, h.pushOn⟩, hlog, hben, h.inner⟩
 
-theorem Inv'.of_mid {cfg : Cfg} {x q s} (h : Mid cfg x q [] s)
-    (hlog : s.closeLog <+: List.range' 0 cfg.protos.length)
-    (hben : BenignProtos cfg → ∃ h, s.closeLog = List.range' 0 (cfg.protos.take h).length)
-    (hlive : s.listener ≠ .dead) : Inv' cfg s :=
-  ⟨h.raised, h.calls, by obtain ⟨l, hl⟩ := h.notif; exact ⟨l, by simpa using hl⟩, hlive, by simp [h.pending],
-    fun _ _ => ⟨h.shield, h.pushOn, hlog, hben⟩, h.inner⟩
-
-theorem Inv'.to_mid {cfg : Cfg} {x s} (h : Inv' cfg s) (hp : s.pending = some x) :
-    Mid cfg x false [] s :=
+theorem Inv'.to_midL {cfg : Cfg} {x s} (h : Inv' cfg s) (hp : s.pending = some x) :
+    MidL cfg x [] s :=
   ⟨hp, h.raised, h.calls, by obtain ⟨l, hl⟩ := h.notif; exact ⟨l, by simp [hl]⟩, (h.closed x hp).1,
-    (h.closed x hp).2.1, h.inner, by simp⟩
+    (h.closed x hp).2, h.inner⟩
 
 theorem Inv'.clear {cfg : Cfg} {s : St} (h : Inv' cfg s) : Inv cfg { s with flying := false } :=
-  ⟨⟨h.raised, h.calls, h.notif, h.live, h.opened, h.closed, h.inner⟩, rfl⟩
+  ⟨⟨h.raised, h.calls, h.notif, h.live, h.opened, h.closed, h.logOk, h.logEq, h.inner⟩, rfl⟩
 
 theorem inv_init {cfg : Cfg} (wf : WF cfg) : Inv cfg (init cfg) :=
-  ⟨⟨rfl, rfl, ⟨cfg.listener, by simp [init, firstOf_nil]⟩, wf.live, fun _ => ⟨rfl, rfl, rfl⟩, by simp [init],
+  ⟨⟨rfl, rfl, ⟨cfg.listener, by simp [init, firstOf_nil]⟩, wf.live, fun _ => ⟨rfl, rfl, rfl, rfl⟩,
+    by simp [init], ⟨by simp [init], by simp [init]⟩, fun _ => by simp [LogEq, init],
     by simp [init]⟩, rfl⟩
 
 /-- the device has been closed: `_pending_tasks` is set -/
 def Closed (s : St) : Prop := ∃ x, s.pending = some x
 
+theorem logOk_range' (s : St) (j : Nat) (hl : s.closeLog = List.range' 0 j) (hj : j ≤ s.closedUpTo) :
+    LogOk s := by
+  unfold LogOk
+  rw [hl]
+  refine ⟨List.pairwise_lt_range', ?_⟩
+  intro a ha
+  simp [List.mem_range'] at ha
+  omega
+
+/-- the first close(), from an `Inv'` state that is open -/
+theorem closeF_first {cfg : Cfg} (wf : WF cfg) (q : Bool) (d : List Report) (s : St)
+    (hp : s.pending = none) (hr : s.raised = false) (hc : s.callsMade = s.reports.length)
+    (hsh : s.shield = List.replicate cfg.nObjs (some false)) (hlog : s.closeLog = [])
+    (hin : ∀ e ∈ s.inner, InnerOk cfg e)
+    (hn : ∃ l, s.notified ++ d = firstOf l s.reports)
+    (hq : q = true → 1 ≤ s.callsMade ∧ s.flying = false) :
+    Mid cfg s.nextId q d (closeF cfg topFuel s) ∧ LogOk (closeF cfg topFuel s) ∧
+      ((closeF cfg topFuel s).flying = false → LogEq (closeF cfg topFuel s)) ∧
+      (BenignProtos cfg → s.flying = false → (closeF cfg topFuel s).flying = false) ∧
+      (closeF cfg topFuel s).listener = s.listener := by
+  obtain ⟨hm, ⟨j, hj, hl, hfull⟩, hben⟩ :=
+    closeF_open wf 1 q d s hp hr hc hn hsh hlog hin hq
+  -- closedUpTo / listener of the result
+  have hb0 := isBlocking_open s cfg.nObjs 0 hsh
+  have hb1 := isBlocking_open s cfg.nObjs cfg.pushObj hsh
+  have hres : (closeF cfg topFuel s).closedUpTo = (cfg.protos.take s.handlers).length ∧
+      (closeF cfg topFuel s).listener = s.listener := by
+    have h0 : Mid cfg s.nextId q d
+        { s with pushOn := false, pending := some s.nextId, nextId := s.nextId + 1, tasks := 1,
+                 shield := List.replicate cfg.nObjs (some true),
+                 closedUpTo := (cfg.protos.take s.handlers).length } :=
+      ⟨Nat.le_refl _, rfl, hr, hc, hn, rfl, rfl, hin, hq⟩
+    have := closeProtos_same wf.maxCalls (cached_closeF cfg 1) (cfg.protos.take s.handlers) 0 _ h0
+    show (closeF cfg (1 + 2) s).closedUpTo = _ ∧ (closeF cfg (1 + 2) s).listener = _
+    rw [closeF]
+    simp only [hp, hb0, hb1, Bool.or_self, Bool.false_eq_true, if_false]
+    rw [blockEverything_open _ cfg.nObjs (by simpa using hsh)]
+    rw [if_neg (by simp [hr])]
+    exact ⟨this.1, this.2.2.1⟩
+  refine ⟨hm, logOk_range' _ j hl (by rw [hres.1]; exact hj), ?_, hben, hres.2⟩
+  intro hff
+  unfold LogEq
+  rw [hl, hres.1, hfull hff]
+
 theorem inv_close {cfg : Cfg} (wf : WF cfg) {s : St} (h : Inv cfg s) :
     Inv' cfg (closeF cfg topFuel s) ∧ Closed (closeF cfg topFuel s) ∧
-      (BenignProtos cfg → (closeF cfg topFuel s).flying = false) := by
+      (BenignProtos cfg → (closeF cfg topFuel s).flying = false) ∧
+      ((closeF cfg topFuel s).flying = false → NoLate cfg (closeF cfg topFuel s)) := by
   obtain ⟨h, hfl⟩ := h
   cases hp : s.pending with
   | some x =>
-    rw [show topFuel = 1 + 1 from rfl, closeF_cached cfg 1 s x hp]
-    exact ⟨h, ⟨x, hp⟩, fun _ => hfl⟩
+    obtain ⟨a, b, g, gb⟩ := closeF_closed wf.maxCalls 1 s (h.to_midL hp)
+    exact ⟨Inv'.of_midL a (by rw [b.listener]; exact h.live) (b.logOk h.logOk)
+      (fun hb => b.logEq (h.logEq hb)), ⟨x, a.pending⟩, fun hb => gb hb hfl, g⟩
   | none =>
-    obtain ⟨hrs, hlog, hsh⟩ := h.opened hp
-    obtain ⟨hm, ⟨j, hj, hl, hfull⟩, hben⟩ :=
-      closeF_open wf 0 false [] s hp h.raised h.calls
-        (by obtain ⟨l, hl⟩ := h.notif; exact ⟨l, by simp [hl]⟩) hsh hlog h.inner (by simp)
-    refine ⟨Inv'.of_mid hm
-      (by rw [hl]; exact range'_prefix j _ (Nat.le_trans hj (take_len_le _ _))) ?_
-      (by rw [closeF_keepL cfg topFuel s]; exact h.live), ⟨_, hm.pending⟩, fun hb => hben hb hfl⟩
-    intro hb
-    exact ⟨s.handlers, by rw [hl, hfull (hben hb hfl)]⟩
+    obtain ⟨hrs, hlog, hsh, hcu⟩ := h.opened hp
+    obtain ⟨hm, hlo, hle, hben, hli⟩ :=
+      closeF_first wf false [] s hp h.raised h.calls hsh hlog h.inner
+        (by obtain ⟨l, hl⟩ := h.notif; exact ⟨l, by simp [hl]⟩) (by simp)
+    exact ⟨Inv'.of_midL hm.toL (by rw [hli]; exact h.live) hlo (fun hb => hle (hben hb hfl)),
+      ⟨_, hm.pending⟩, fun hb => hben hb hfl, fun _ => hm.nolate⟩
 
 theorem inv_report {cfg : Cfg} (wf : WF cfg) {s : St} (h : Inv cfg s) (r : Report) (b : Beh) :
     Inv' cfg (reportWith cfg (closeF cfg topFuel) s r b) ∧
       Closed (reportWith cfg (closeF cfg topFuel) s r b) := by
   obtain ⟨h, hfl⟩ := h
-  have hlive : (reportWith cfg (closeF cfg topFuel) s r b).listener ≠ .dead := by
-    rw [reportWith_keepL (closeF_keepL cfg topFuel)]; exact h.live
   cases hp : s.pending with
   | some x =>
-    obtain ⟨a, bb, _⟩ := reportWith_mid wf.maxCalls (cached_closeF cfg 1) (h.to_mid hp) hfl r b
-    obtain ⟨_, _, hlg, hbn⟩ := h.closed x hp
-    exact ⟨Inv'.of_mid a (by rw [bb.1.2.2]; exact hlg)
-      (fun hb => by obtain ⟨h0, hh⟩ := hbn hb; exact ⟨h0, by rw [bb.1.2.2]; exact hh⟩) hlive,
-      ⟨x, a.pending⟩⟩
+    obtain ⟨a, bb, _⟩ := reportWith_late wf.maxCalls 2 (h.to_midL hp) hfl r b
+    exact ⟨Inv'.of_midL a (by rw [bb.listener]; exact h.live) (bb.logOk h.logOk)
+      (fun hb => bb.logEq (h.logEq hb)), ⟨x, a.pending⟩⟩
   | none =>
-    obtain ⟨hrs, hlog, hsh⟩ := h.opened hp
+    obtain ⟨hrs, hlog, hsh, hcu⟩ := h.opened hp
     have hc0 : s.callsMade = 0 := by rw [h.calls, hrs]; rfl
     have hnot : s.notified = [] := by obtain ⟨l, hl⟩ := h.notif; rw [hl, hrs, firstOf_nil]
     have hno : ¬(cfg.maxCalls ≠ 0 ∧ s.callsMade + 1 > cfg.maxCalls) := by
       rw [wf.maxCalls, hc0]; simp
     rcases listener_cases s with hl | hl | hl
-    · rw [reportWith_none r b hno hl] at hlive ⊢
-      obtain ⟨hm, ⟨j, hj, hlg, hfull⟩, _⟩ :=
-        closeF_open wf 0 true [] { s with reports := s.reports ++ [r], callsMade := s.callsMade + 1 }
-          hp h.raised (by simp [hrs, hc0]) ⟨.none, by simp [firstOf, hnot]⟩ hsh hlog h.inner
+    · rw [reportWith_none r b hno hl]
+      obtain ⟨hm, hlo, hle, _, hli⟩ :=
+        closeF_first wf true [] { s with reports := s.reports ++ [r], callsMade := s.callsMade + 1 }
+          hp h.raised (by simp [hrs, hc0]) hsh hlog h.inner ⟨.none, by simp [firstOf, hnot]⟩
           (fun _ => ⟨by simp, hfl⟩)
       have hff := (hm.quiet rfl).2
-      exact ⟨Inv'.of_mid hm
-        (by rw [hlg]; exact range'_prefix j _ (Nat.le_trans hj (take_len_le _ _)))
-        (fun _ => ⟨s.handlers, by rw [hlg, hfull hff]⟩) hlive, ⟨_, hm.pending⟩⟩
-    · rw [reportWith_alive r b hno hl] at hlive ⊢
-      obtain ⟨hm, ⟨j, hj, hlg, hfull⟩, _⟩ :=
-        closeF_open wf 0 true [r] { s with reports := s.reports ++ [r], callsMade := s.callsMade + 1 }
-          hp h.raised (by simp [hrs, hc0]) ⟨.alive, by simp [firstOf, hnot, hrs]⟩ hsh hlog h.inner
+      exact ⟨Inv'.of_midL hm.toL (by rw [hli]; exact h.live) hlo (fun _ => hle hff), ⟨_, hm.pending⟩⟩
+    · rw [reportWith_alive r b hno hl]
+      obtain ⟨hm, hlo, hle, _, hli⟩ :=
+        closeF_first wf true [r] { s with reports := s.reports ++ [r], callsMade := s.callsMade + 1 }
+          hp h.raised (by simp [hrs, hc0]) hsh hlog h.inner ⟨.alive, by simp [firstOf, hnot, hrs]⟩
           (fun _ => ⟨by simp, hfl⟩)
       have hff := (hm.quiet rfl).2
-      have hff' : (closeF cfg topFuel
-          { s with reports := s.reports ++ [r], callsMade := s.callsMade + 1 }).flying = false := hff
-      rw [if_neg (by simp [hff'])] at hlive ⊢
-      obtain ⟨a, bb, _⟩ := handler_cached (cfg := cfg) (cached_closeF cfg 1) r b hm.weaken hff
-      have hlg' : (closeF cfg topFuel
-          { s with reports := s.reports ++ [r], callsMade := s.callsMade + 1 }).closeLog
-          = List.range' 0 j := hlg
-      exact ⟨Inv'.of_mid a
-        (by rw [bb.1.2.2, hlg']; exact range'_prefix j _ (Nat.le_trans hj (take_len_le _ _)))
-        (fun _ => ⟨s.handlers, by rw [bb.1.2.2, hlg', hfull hff]⟩) hlive, ⟨_, a.pending⟩⟩
+      rw [if_neg (by simp [hff])]
+      obtain ⟨a, bb, _⟩ := handler_cached (cfg := cfg) (cached_closeF cfg 2) r b hm.weaken hff
+      have hx := Ext.of_same bb
+      exact ⟨Inv'.of_midL a.toL (by rw [hx.listener, hli]; exact h.live) (hx.logOk hlo)
+        (fun _ => hx.logEq (hle hff)), ⟨_, a.pending⟩⟩
     · exact absurd hl h.live
 
 /-- user code inside a PushListener callback: API calls and `close()` calls like any other -/
@@ -622,7 +902,7 @@ theorem inv_runInner {cfg : Cfg} (wf : WF cfg) (es : List InEv) :
     | api m =>
       simp only [runInner]
       apply ih
-      refine ⟨⟨h.1.raised, h.1.calls, h.1.notif, h.1.live, h.1.opened, h.1.closed, ?_⟩, h.2⟩
+      refine ⟨⟨h.1.raised, h.1.calls, h.1.notif, h.1.live, h.1.opened, h.1.closed, h.1.logOk, h.1.logEq, ?_⟩, h.2⟩
       intro e he
       rcases List.mem_append.mp he with he | he
       · exact h.1.inner e he
@@ -630,11 +910,11 @@ theorem inv_runInner {cfg : Cfg} (wf : WF cfg) (es : List InEv) :
         subst he
         intro hc; simp at hc
     | close =>
-      obtain ⟨h', _, _⟩ := inv_close wf h
+      obtain ⟨h', _, _, _⟩ := inv_close wf h
       simp only [runInner]
       split
       · apply ih
-        refine ⟨⟨h'.raised, h'.calls, h'.notif, h'.live, h'.opened, h'.closed, ?_⟩, rfl⟩
+        refine ⟨⟨h'.raised, h'.calls, h'.notif, h'.live, h'.opened, h'.closed, h'.logOk, h'.logEq, ?_⟩, rfl⟩
         intro e he
         rcases List.mem_append.mp he with he | he
         · exact h'.inner e he
@@ -643,13 +923,28 @@ theorem inv_runInner {cfg : Cfg} (wf : WF cfg) (es : List InEv) :
           intro hc; simp at hc
       · rename_i hnf
         apply ih
-        refine ⟨⟨h'.raised, h'.calls, h'.notif, h'.live, h'.opened, h'.closed, ?_⟩, by simpa using hnf⟩
+        refine ⟨⟨h'.raised, h'.calls, h'.notif, h'.live, h'.opened, h'.closed, h'.logOk, h'.logEq, ?_⟩,
+          by simpa using hnf⟩
         intro e he
         rcases List.mem_append.mp he with he | he
         · exact h'.inner e he
         · simp only [List.mem_singleton] at he
           subst he
           intro hc; simp at hc
+
+theorem Inv.same {cfg : Cfg} {s t : St} (h : Inv cfg s)
+    (e : t = t) (hr : t.raised = s.raised) (hc : t.callsMade = s.callsMade) (hrep : t.reports = s.reports)
+    (hn : t.notified = s.notified) (hli : t.listener ≠ .dead) (hp : t.pending = s.pending)
+    (hlog : t.closeLog = s.closeLog) (hsh : t.shield = s.shield) (hcu : t.closedUpTo = s.closedUpTo)
+    (hpo : ∀ x, t.pending = some x → t.pushOn = false) (hin : t.inner = s.inner)
+    (hf : t.flying = s.flying) : Inv cfg t := by
+  obtain ⟨h, hfl⟩ := h
+  refine ⟨⟨by rw [hr]; exact h.raised, by rw [hc, hrep]; exact h.calls, by rw [hn, hrep]; exact h.notif,
+    hli, ?_, ?_, ?_, ?_, by rw [hin]; exact h.inner⟩, by rw [hf]; exact hfl⟩
+  · intro hp'; rw [hp] at hp'; rw [hrep, hlog, hsh, hcu]; exact h.opened hp'
+  · intro x hx; rw [hsh]; exact ⟨(h.closed x (by rw [← hp]; exact hx)).1, hpo x hx⟩
+  · unfold LogOk; rw [hlog, hcu]; exact h.logOk
+  · intro hb; unfold LogEq; rw [hlog, hcu]; exact h.logEq hb
 
 theorem inv_step {cfg : Cfg} (wf : WF cfg) {s : St} (h : Inv cfg s) (e : Ev) :
     Inv cfg (step cfg s e).1 := by
@@ -661,28 +956,28 @@ theorem inv_step {cfg : Cfg} (wf : WF cfg) {s : St} (h : Inv cfg s) (e : Ev) :
     · exact h'.clear
     · rename_i hnf; exact ⟨h', by simpa using hnf⟩
   | userClose =>
-    obtain ⟨h', _, _⟩ := inv_close wf h
+    obtain ⟨h', _, _, _⟩ := inv_close wf h
     simp only [step]
     split
     · exact h'.clear
     · rename_i hnf; exact ⟨h', by simpa using hnf⟩
   | api m => simp only [step]; split <;> (try split) <;> exact h
-  | dropDevice => exact ⟨⟨h.1.raised, h.1.calls, h.1.notif, h.1.live, h.1.opened, h.1.closed, h.1.inner⟩, h.2⟩
+  | dropDevice =>
+    exact h.same rfl rfl rfl rfl rfl h.1.live rfl rfl rfl rfl (fun x hx => (h.1.closed x hx).2) rfl rfl
   | setListener b =>
-    -- the setter replaces the reference and nothing else: the budget (calls_made) stays consumed
-    refine ⟨⟨h.1.raised, h.1.calls, h.1.notif, ?_, h.1.opened, h.1.closed, h.1.inner⟩, h.2⟩
+    refine h.same rfl rfl rfl rfl rfl ?_ rfl rfl rfl rfl (fun x hx => (h.1.closed x hx).2) rfl rfl
     show (if b then Listener.alive else Listener.none) ≠ Listener.dead
     cases b <;> simp
   | setPushListener b =>
-    exact ⟨⟨h.1.raised, h.1.calls, h.1.notif, h.1.live, h.1.opened, h.1.closed, h.1.inner⟩, h.2⟩
+    exact h.same rfl rfl rfl rfl rfl h.1.live rfl rfl rfl rfl (fun x hx => (h.1.closed x hx).2) rfl rfl
   | connectNext =>
-    exact ⟨⟨h.1.raised, h.1.calls, h.1.notif, h.1.live, h.1.opened, h.1.closed, h.1.inner⟩, h.2⟩
+    exact h.same rfl rfl rfl rfl rfl h.1.live rfl rfl rfl rfl (fun x hx => (h.1.closed x hx).2) rfl rfl
   | pushStartFault =>
     simp only [step]
     split
     · exact h
     · rename_i hb
-      refine ⟨⟨h.1.raised, h.1.calls, h.1.notif, h.1.live, h.1.opened, ?_, h.1.inner⟩, h.2⟩
+      refine h.same rfl rfl rfl rfl rfl h.1.live rfl rfl rfl rfl ?_ rfl rfl
       intro x hx
       have := isBlocking_closed s cfg.nObjs cfg.pushObj (h.1.closed x hx).1 wf.push
       exact absurd this hb
@@ -691,7 +986,7 @@ theorem inv_step {cfg : Cfg} (wf : WF cfg) {s : St} (h : Inv cfg s) (e : Ev) :
     split
     · exact h
     · rename_i hb
-      refine ⟨⟨h.1.raised, h.1.calls, h.1.notif, h.1.live, h.1.opened, ?_, h.1.inner⟩, h.2⟩
+      refine h.same rfl rfl rfl rfl rfl h.1.live rfl rfl rfl rfl ?_ rfl rfl
       intro x hx
       have := isBlocking_closed s cfg.nObjs cfg.pushObj (h.1.closed x hx).1 wf.push
       exact absurd this hb
@@ -699,8 +994,7 @@ theorem inv_step {cfg : Cfg} (wf : WF cfg) {s : St} (h : Inv cfg s) (e : Ev) :
     simp only [step]
     split
     · exact h
-    · exact ⟨⟨h.1.raised, h.1.calls, h.1.notif, h.1.live, h.1.opened,
-        fun x hx => ⟨(h.1.closed x hx).1, rfl, (h.1.closed x hx).2.2⟩, h.1.inner⟩, h.2⟩
+    · exact h.same rfl rfl rfl rfl rfl h.1.live rfl rfl rfl rfl (fun _ _ => rfl) rfl rfl
   | push i b =>
     simp only [step]
     split
@@ -815,6 +1109,22 @@ theorem blockEverything_grows (s : St) : Grows s (blockEverything s) := by
   unfold blockEverything
   simp [hr]
 
+theorem lateLoop_grows {cfg : Cfg} {k : St → St} (hk : Mono k) (ps : List Proto) :
+    ∀ i s, Grows s (lateLoop cfg k i ps s) := by
+  induction ps with
+  | nil => intro i s; exact Grows.refl s
+  | cons p ps ih =>
+    intro i s
+    by_cases hlt : i < s.closedUpTo
+    · rw [lateLoop_skip1 hlt]; exact ih (i + 1) s
+    · rw [lateLoop_do hlt]
+      have h2 := foldl_emit_grows (cfg := cfg) hk i p.onClose
+        { s with closedUpTo := i + 1, closeLog := s.closeLog ++ [i] }
+      have h1 : Grows s { s with closedUpTo := i + 1, closeLog := s.closeLog ++ [i] } := Grows.refl s
+      split
+      · exact h1.trans h2
+      · exact (h1.trans h2).trans (Grows.after (ih (i + 1) _) rfl rfl rfl)
+
 theorem closeF_grows (cfg : Cfg) : ∀ f, Mono (closeF cfg f) := by
   intro f
   induction f with
@@ -823,7 +1133,7 @@ theorem closeF_grows (cfg : Cfg) : ∀ f, Mono (closeF cfg f) := by
     intro s
     rw [closeF]
     split
-    · exact Grows.refl s
+    · exact lateLoop_grows ih _ 0 s
     · split
       · exact ⟨List.prefix_refl _, List.prefix_refl _, fun _ => rfl⟩
       · have hb := blockEverything_grows
@@ -834,7 +1144,8 @@ theorem closeF_grows (cfg : Cfg) : ∀ f, Mono (closeF cfg f) := by
         dsimp only
         split
         · exact h0.trans hb
-        · exact (h0.trans hb).trans (closeProtos_grows (cfg := cfg) ih _ 0 _)
+        · exact (h0.trans hb).trans
+            (Grows.after (closeProtos_grows (cfg := cfg) ih _ 0 _) rfl rfl rfl)
 
 theorem step_grows (cfg : Cfg) (s : St) (e : Ev) : Grows s (step cfg s e).1 := by
   cases e with
@@ -900,53 +1211,51 @@ theorem closed_of_closing {cfg : Cfg} (wf : WF cfg) {s : St} (h : Inv cfg s) (e 
   | pushStop => simp [Ev.isClosing] at he
   | push i b => simp [Ev.isClosing] at he
 
-theorem runInner_closed_frame {cfg : Cfg} (es : List InEv) :
-    ∀ s x, Inv' cfg s → s.flying = false → s.pending = some x →
-      Frame s (runInner cfg (closeF cfg topFuel) false s es) := by
-  intro s x h hf hp
-  exact (runInner_cached (cfg := cfg) (cached_closeF cfg 1) false es s (h.to_mid hp) hf).2.2.1
-
-theorem step_closed_frame {cfg : Cfg} (wf : WF cfg) (s : St) (x : Nat) (h : Inv cfg s)
-    (hp : s.pending = some x) (e : Ev) : Frame s (step cfg s e).1 := by
+/-- once closed: the cached set keeps its identity and only grows, whatever happens -/
+theorem step_closed_ext {cfg : Cfg} (wf : WF cfg) (s : St) (x : Nat) (h : Inv cfg s)
+    (hp : s.pending = some x) (e : Ev) :
+    (step cfg s e).1.pending = some x ∧ s.tasks ≤ (step cfg s e).1.tasks := by
   cases e with
   | report i k b =>
-    have := (reportWith_mid wf.maxCalls (cached_closeF cfg 1) (h.1.to_mid hp) h.2 ⟨i, k⟩ b).2.1.1
+    obtain ⟨_, bb, _⟩ := reportWith_late wf.maxCalls 2 (h.1.to_midL hp) h.2 ⟨i, k⟩ b
     simp only [step]
     split
-    · exact this
-    · exact this
+    · exact ⟨bb.pending.trans hp, bb.tasks⟩
+    · exact ⟨bb.pending.trans hp, bb.tasks⟩
   | userClose =>
-    have hc : closeF cfg topFuel s = s := closeF_cached cfg 1 s x hp
-    simp only [step, hc]
-    split <;> exact Frame.refl s
-  | api m => simp only [step]; split <;> (try split) <;> exact Frame.refl s
-  | dropDevice => exact ⟨rfl, rfl, rfl⟩
-  | setListener b => exact ⟨rfl, rfl, rfl⟩
-  | setPushListener b => exact ⟨rfl, rfl, rfl⟩
-  | connectNext => exact ⟨rfl, rfl, rfl⟩
-  | pushStartFault => simp only [step]; split <;> exact Frame.refl s
-  | pushStart => simp only [step]; split <;> exact Frame.refl s
-  | pushStop => simp only [step]; split <;> exact Frame.refl s
-  | push i b =>
+    obtain ⟨_, bb, _⟩ := closeF_closed wf.maxCalls 1 s (h.1.to_midL hp)
     simp only [step]
     split
-    · exact runInner_closed_frame b.inner s x h.1 h.2 hp
-    · exact Frame.refl s
+    · exact ⟨bb.pending.trans hp, bb.tasks⟩
+    · exact ⟨bb.pending.trans hp, bb.tasks⟩
+  | api m => simp only [step]; split <;> (try split) <;> exact ⟨hp, Nat.le_refl _⟩
+  | dropDevice => exact ⟨hp, Nat.le_refl _⟩
+  | setListener b => exact ⟨hp, Nat.le_refl _⟩
+  | setPushListener b => exact ⟨hp, Nat.le_refl _⟩
+  | connectNext => exact ⟨hp, Nat.le_refl _⟩
+  | pushStartFault => simp only [step]; split <;> exact ⟨hp, Nat.le_refl _⟩
+  | pushStart => simp only [step]; split <;> exact ⟨hp, Nat.le_refl _⟩
+  | pushStop => simp only [step]; split <;> exact ⟨hp, Nat.le_refl _⟩
+  | push i b =>
+    have hpo := (h.1.closed x hp).2
+    simp only [step, hpo, Bool.false_and, Bool.false_eq_true, if_false]
+    exact ⟨hp, Nat.le_refl _⟩
 
-theorem run_closed_frame {cfg : Cfg} (wf : WF cfg) (evs : List Ev) :
-    ∀ s x, Inv cfg s → s.pending = some x → Frame s (run cfg s evs) := by
+theorem run_closed_ext {cfg : Cfg} (wf : WF cfg) (evs : List Ev) :
+    ∀ s x, Inv cfg s → s.pending = some x →
+      (run cfg s evs).pending = some x ∧ s.tasks ≤ (run cfg s evs).tasks := by
   induction evs with
-  | nil => intro s x _ _; exact Frame.refl s
+  | nil => intro s x _ hp; exact ⟨hp, Nat.le_refl _⟩
   | cons e es ih =>
     intro s x h hp
-    have h1 := step_closed_frame wf s x h hp e
-    have hp' : (step cfg s e).1.pending = some x := by rw [h1.1]; exact hp
-    exact Frame.trans h1 (ih _ x (inv_step wf h e) hp')
+    have h1 := step_closed_ext wf s x h hp e
+    have h2 := ih _ x (inv_step wf h e) h1.1
+    exact ⟨h2.1, Nat.le_trans h1.2 h2.2⟩
 
 theorem closed_run {cfg : Cfg} (wf : WF cfg) (evs : List Ev) (s : St) (hi : Inv cfg s)
     (h : Closed s) : Closed (run cfg s evs) := by
   obtain ⟨x, hx⟩ := h
-  exact ⟨x, by rw [(run_closed_frame wf evs s x hi hx).1]; exact hx⟩
+  exact ⟨x, (run_closed_ext wf evs s x hi hx).1⟩
 
 theorem run_append (cfg : Cfg) (a b : List Ev) : ∀ s, run cfg s (a ++ b) = run cfg (run cfg s a) b := by
   induction a with
